@@ -10,6 +10,10 @@ Streams
   corpus   every *.asm under <repo>/tests, <repo>/examples, <repo>/std, whole files
   mutants  token-level mutants of them (tools/c13_gen.mutate: delete / duplicate / swap / replace tokens, non-ASCII
            insertions in and out of comments and strings) plus spliced lines of two files and unbalanced braces
+  fields   generated multi-line #bankdef field blocks (k = 0..6 good fields, a faulty field at every index: unknown /
+           duplicate / ill-valued, `name = v` and `#name v` styles, commas / line breaks / blank lines / comments, CRLF,
+           as a main file with code around it or as a block-only included file) and token-broken variants: the whole AST
+           AND the span of the FIRST error message of the implementation equal the located model (Model/AsmFields.v)
   gen      generated programs: tools/asm_gen (ISA + program, styles), tools/c17_gen (asm-block macros, #fn),
            tools/c16_gen (#if/#elif/#else trees), tools/c15_gen-free, tools/c14_gen (#include/#once files),
            tools/c13_gen (valid programs with non-ASCII context and injected faults)
@@ -265,6 +269,134 @@ def alternating_cases(rng, n):
     return out
 
 
+# ----------------------------------------------------------------------------- located first errors of #bankdef field blocks
+BANK_KNOWN = [("bits", ["8", "16", "4 + 4"]), ("labelalign", ["8", "2 * 4"]), ("addr", ["0x0", "0x8000", "start"]), ("addr_end", ["0x10000", "end"]),
+              ("size", ["0x8000", "32768", "(1 << 15)"]), ("outp", ["0", "8 * 0x10", "asm { nop }"]), ("fill", [None])]
+BANK_UNKNOWN_NAMES = ["filll", "adr", "sizee", "outpp", "bitz", "fil", "address", "labelalignn", "BITS", "Addr", "x", "_", "bank", "data"]
+BANK_BAD_VALUES = ["1 +* 2", "(1", ")", "", "1 2", "{", '"\\q"', "0x", "asm { #d8 ) }", "1 ? ", "f(1,", "'a'", "\u00e9"]
+
+
+def field_text(rng, name, value, hashed):
+    if value is None:
+        return ("#" + name) if hashed else name
+    if hashed:
+        return "#%s %s" % (name, value)
+    return "%s%s=%s%s" % (name, rng.choice([" ", "", "\t"]), rng.choice([" ", ""]), value)
+
+
+def fields_case(rng, k, idx, kind, included):
+    """a file with one #bankdef block of k good fields and, for kind != 'none', one faulty field inserted before good field
+    number idx (idx = k: after the last).  Returns (tag, text)."""
+    cm = lambda: rng.choice(["", "", " ; note", " ;* \u00e9 *;", " ; \u3042\U0001F600"])
+    eol = "\r\n" if rng.chance(0.1) else "\n"
+    good = rng.shuffle(BANK_KNOWN)[:k]
+    hashed = rng.chance(0.35)
+    items = [(n, field_text(rng, n, rng.choice(vs), hashed if rng.chance(0.8) else not hashed)) for (n, vs) in good]
+    if kind != "none":
+        fh = rng.chance(0.4)
+        if kind == "unknown":
+            n = rng.choice(BANK_UNKNOWN_NAMES)
+            ft = field_text(rng, n, rng.choice(["0", "1 + 1", None]), fh)
+        elif kind == "duplicate" and good:
+            n = rng.choice(good)[0]
+            ft = field_text(rng, n, None if n == "fill" and rng.chance(0.7) else rng.choice(["0x0", "7"]), fh)
+        else:
+            kind = "badvalue"
+            n = rng.choice([x for (x, _) in BANK_KNOWN if x not in [g[0] for g in good]] or ["zz"])
+            ft = field_text(rng, n, rng.choice(BANK_BAD_VALUES), fh)
+        items.insert(idx, (n, ft))
+    lines = []
+    if not included:
+        lines += rng.choice([[], ["#ruledef", "{", "    nop => 0x00", "}"], ["; \u00e9 header", "start:"], ["#once"]])
+    lines.append("#bankdef %s%s" % (rng.choice(["prog", "rom", "b"]), cm()))
+    lines.append("{" + cm())
+    cur = ""
+    for i, (n, ft) in enumerate(items):
+        sep = rng.weighted([("nl", 5), ("comma_nl", 3), ("comma", 2), ("nl2", 1)])
+        lead = rng.choice(["    ", "\t", "  ", "", " ;* c *; "])
+        bare_hash = ft.startswith("#") and " " not in ft       # `#fill,` would read the comma as a value
+        piece = (lead if not cur else " ") + ft
+        last = i + 1 == len(items)
+        if sep == "comma" and not last and not bare_hash:
+            cur += piece + ","
+            continue
+        cur += piece + ("," if sep == "comma_nl" and not bare_hash and (not last or rng.chance(0.5)) else "") + cm()
+        lines.append(cur); cur = ""
+        if sep == "nl2":
+            lines.append(rng.choice(["", "   ", "; only a comment"]))
+    if cur:
+        lines.append(cur)
+    lines.append("}" + cm())
+    if not included:
+        lines += rng.choice([[], ["nop"], ["end:", "#d8 1, 2"]])
+    text = eol.join(lines) + (eol if rng.chance(0.85) else "")
+    return ("fields %s k=%d at=%d %s" % (kind, k, idx, "included" if included else "main"), text)
+
+
+def fields_cases(rng, rounds):
+    out = []
+    for _ in range(rounds):
+        for k in range(0, 7):
+            for idx in range(0, k + 1):
+                for kind in ("unknown", "duplicate", "badvalue"):
+                    out.append(fields_case(rng, k, idx, kind, rng.chance(0.5)))
+            out.append(fields_case(rng, k, 0, "none", rng.chance(0.5)))
+    # broken block syntax around the fields
+    for _ in range(rounds * 12):
+        tag, t = fields_case(rng, rng.range(0, 5), 0, "none", rng.chance(0.5))
+        toks = c13_gen.tokenize(t)
+        i = rng.below(len(toks))
+        k = rng.below(4)
+        if k == 0:
+            del toks[i]
+        elif k == 1:
+            toks.insert(i, rng.choice([",", "=", "#", "{", "}", "\n", "x", "1"]))
+        elif k == 2:
+            toks[i] = rng.choice([",", "=", "#", "}", "x", "1", ""])
+        else:
+            toks = toks[:i]
+        m = "".join(toks)
+        if valid_utf8(m):
+            out.append(("fields broken", m))
+    return out
+
+
+def compare_located(chk, stream, cases, exe, bins, budget=8):
+    """implementation: OK dump | ERR s:e (span of the first message); model (E mode): OK dump | ERR s:e | ERRX c (the error is
+    somewhere in the expression that starts at byte c) | FUEL"""
+    impl = run_isolating([os.path.join(bins["debug"], "astdump")], [vlib.hx(t) for (_, t) in cases])
+    impl_r = run_isolating([os.path.join(bins["release"], "astdump")], [vlib.hx(t) for (_, t) in cases]) if "release" in bins else impl
+    model = run_isolating([exe], ["E " + vlib.hx(t) for (_, t) in cases])
+    dist, bad = {}, 0
+    for (tag, text), a, r, m in zip(cases, impl, impl_r, model):
+        chk.cov["traces_validated_against_impl"] += 1
+        cls = "ok" if m.startswith("OK") else "located" if m.startswith("ERR ") else "in_expression" if m.startswith("ERRX ") else "other"
+        dist[cls] = dist.get(cls, 0) + 1
+        kind = tag.split(" ")[1] if tag.startswith("fields ") and len(tag.split(" ")) > 1 else "?"
+        dist["kind_" + kind] = dist.get("kind_" + kind, 0) + 1
+        if cls == "located" and " at=" in tag and not tag.endswith("at=0 main") and not tag.endswith("at=0 included"):
+            chk.nontriv(hash(text))
+        ok = a == r
+        if ok and cls in ("ok", "located"):
+            ok = a == m
+        elif ok and cls == "in_expression":
+            f = a.split(" ")
+            ok = len(f) == 2 and f[0] == "ERR" and ":" in f[1] and int(f[1].split(":")[0]) >= int(m.split(" ")[1]) and int(f[1].split(":")[1]) <= len(text.encode("utf-8"))
+        elif ok:
+            ok = False
+        if not ok:
+            bad += 1
+            chk.cov["disagreements_checked"] += 1
+            if bad <= budget:
+                chk.violation("first error / AST of a #bankdef field block: implementation %s, model %s (%s)" % (a[:80], m[:80], tag),
+                              {"kind": "ext_asmparser", "stream": stream, "tag": tag, "text": text, "impl": a[:3000], "impl_release": r[:3000], "model": m[:3000]},
+                              found=(a in ("PANIC", "CRASH")))
+    chk.count(stream, len(cases), **dist)
+    for (tag, text), a in list(zip(cases, impl))[:2]:
+        chk.sample({"stream": stream, "tag": tag, "text": text[:200], "answer": a[:120]})
+    return bad
+
+
 def first_diff(a, b):
     i = 0
     while i < min(len(a), len(b)) and a[i] == b[i]:
@@ -285,8 +417,9 @@ def compare(chk, stream, cases, exe, bins, budget=6):
     """cases: list of (tag, text).  Returns number of disagreements."""
     lines = [vlib.hx(t) for (_, t) in cases]
     t0 = time.time()
-    impl = run_isolating([os.path.join(bins["debug"], "astdump")], lines)
-    impl_r = run_isolating([os.path.join(bins["release"], "astdump")], lines) if "release" in bins else impl
+    unloc = lambda x: "ERR" if x.startswith("ERR ") else x        # the span of the first message is compared by compare_located
+    impl = [unloc(x) for x in run_isolating([os.path.join(bins["debug"], "astdump")], lines)]
+    impl_r = [unloc(x) for x in run_isolating([os.path.join(bins["release"], "astdump")], lines)] if "release" in bins else impl
     t1 = time.time()
     model = run_isolating([exe], lines)
     t2 = time.time()
@@ -374,6 +507,9 @@ def run_streams(chk, quick=True):
     directed = directed_cases(rng.fork("dir")) + alternating_cases(rng.fork("alt"), 1500 if quick else 12000)
     bad += compare(chk, "asmparser_directed", directed, exe, bins, budget=12)
     fuel_margin(chk, exe, [(n, t) for (n, t) in files] + directed + [(k + " of " + n, t) for (k, n, t) in muts[:4000]])
+    fcases = fields_cases(rng.fork("fields"), 12 if quick else 120)
+    bad += compare_located(chk, "asmparser_fields", fcases, exe, bins)
+    bad += compare_located(chk, "asmparser_located_corpus", [(n, t) for (n, t) in files] + directed[:3435], exe, bins)
     progs = gen_programs(rng.fork("gen"), 4800 if quick else 32000)
     kinds = {}
     for k, _ in progs:
